@@ -81,7 +81,7 @@ impl Prop for P {
     fn meta() -> Meta {
         Meta {
             level: "exploration",
-            rule: "plaintext recipe x configuration x schedules rich in mid-stream Partial/Sync/Full (and Opt/NoSync) flush requests with output buffers from 1 byte up, through core::compress and stream::deflate; at every flush return that satisfies the property's side conditions (previous call left output space unused; this call consumed all offered input and left space) the reference inflater is run on exactly the bytes emitted so far and must be Incomplete (never Invalid) with output == all input supplied so far; Sync/Full prefixes must end byte-aligned in 00 00 FF FF; the remainder after a Full flush must decode on its own in flat mode (any back-reference across the flush is 'distance before start'); NoSync followed by Sync must be byte-identical to Sync alone. Non-trivial = a qualifying flush happened with >= 1 byte compressed before and >= 1 byte still to come; distinct by case fingerprint",
+            rule: "plaintext recipe x configuration x schedules rich in mid-stream Partial/Sync/Full (and Opt/NoSync) flush requests with output buffers from 1 byte up, through core::compress and stream::deflate; at every flush return that satisfies the property's side conditions (previous call left output space unused; this call consumed all offered input and left space) the reference inflater is run on exactly the bytes emitted so far and must be Incomplete (never Invalid) with output == all input supplied so far; Sync/Full prefixes must end byte-aligned in 00 00 FF FF; the remainder after a Full flush must decode on its own in flat mode (any back-reference across the flush is 'distance before start'); NoSync followed by Sync must be byte-identical to Sync alone. Full flushes collected over several calls: the 'repeat the Full call until it leaves space' idiom with 7..5000-byte buffers, and for every schedule a token-trace oracle (at every input position where only Full flushes were requested and a marker is in the stream, no later match reaches back across it). Non-trivial = a qualifying flush happened with >= 1 byte compressed before and >= 1 byte still to come; distinct by case fingerprint",
             assumptions: &["reference inflater (self-checked)"],
             dbg: false,
             simd: false,
